@@ -66,6 +66,11 @@ DepthOK == Len(cfstack) <= CFMaxDepth
 ProgOut(p) == [k \in 1..Len(p) |-> <<p[k].n, <<p[k].i.opc, p[k].i.dst, p[k].i.src, p[k].i.off, p[k].i.imm>>>>]
 Emit == (EmitAll /\ cfpc = 0 /\ cfstack = <<>> /\ cfstatus = "run") =>
            PrintT("REPLAY " \o ToJson([kind |-> "verdict", id |-> tmpl, prog |-> ProgOut(cfprog), extra |-> 0,
-                                       accept |-> WellFormed(cfprog), violated |-> Violated(cfprog)]))
+                                       accept |-> WellFormed(cfprog), violated |-> Violated(cfprog),
+                                       \* compile outcomes with helper sets {} and {1}: <<jit{}, jit{1}, cl{}, cl{1}>>
+                                       compile |-> IF WellFormed(cfprog)
+                                                   THEN << CompileOk(cfprog, {}, "jit"), CompileOk(cfprog, {1}, "jit"),
+                                                           CompileOk(cfprog, {}, "cl"), CompileOk(cfprog, {1}, "cl") >>
+                                                   ELSE <<>>]))
 Inv == Safe /\ DepthOK /\ Emit
 =============================================================================
